@@ -14,9 +14,9 @@ use crate::rt::{self, run_dna, Out};
 use crate::watch::{self, ChildResult};
 use peppi::io::slippi::de;
 
-pub const OPS: [&str; 22] = [
+pub const OPS: [&str; 23] = [
 	"insert_event", "delete_event", "dup_event", "swap_events", "frame_id", "port_byte", "follower_flag", "illegal_event", "table_size", "table_zero",
-	"table_dup", "table_drop", "table_sizebyte", "raw_len", "splitter_field", "meta_garbage", "meta_depth", "truncate", "flip_bytes", "splice", "random_bytes", "no_players",
+	"table_dup", "table_drop", "table_sizebyte", "raw_len", "splitter_field", "meta_garbage", "meta_depth", "meta_retag", "truncate", "flip_bytes", "splice", "random_bytes", "no_players",
 ];
 
 /// README's incremental loop; "ok" / "err" / "panic"
@@ -260,6 +260,32 @@ fn corrupt_structural(raw: &mut RawFile, m: &ModelGame, d: &mut Dna, op: &'stati
 			md.push(b'}');
 			raw.metadata = Some(md);
 		}
+		"meta_retag" => {
+			// grammar-aware: give one metadata value another UBJSON type marker (every marker of the UBJSON
+			// spec, not only the three peppi knows) and, often, an edge-case numeric payload
+			let mut md = raw.metadata.clone().unwrap_or_else(|| b"U\x01al\xff\xff\xff\xffU\x01bSU\x01x}".to_vec());
+			let vals = ubjson_values(&md);
+			if !vals.is_empty() {
+				let (tpos, ppos, plen) = vals[d.below(vals.len())];
+				const MARKERS: [u8; 18] = [b'Z', b'N', b'T', b'F', b'i', b'U', b'I', b'l', b'L', b'd', b'D', b'H', b'C', b'S', b'[', b'{', b']', b'}'];
+				md[tpos] = MARKERS[d.below(MARKERS.len())];
+				if d.u8() >= 96 {
+					const EDGES: [[u8; 8]; 6] = [[0xFF; 8], [0x7F, 0xF0, 0, 0, 0, 0, 0, 0], [0x7F, 0x80, 0, 0, 0x7F, 0x80, 0, 0], [0xFF, 0xF8, 0, 0, 0, 0, 0, 1], [0x80, 0, 0, 0, 0, 0, 0, 0], [0x7F, 0xFF, 0xFF, 0xFF, 0xFF, 0xFF, 0xFF, 0xFF]];
+					let e = EDGES[d.below(EDGES.len())];
+					// overwrite (and if the new type is wider, insert) payload bytes
+					let want = match md[tpos] {
+						b'L' | b'D' => 8,
+						b'l' | b'd' => 4,
+						b'I' => 2,
+						b'i' | b'U' | b'C' => 1,
+						_ => plen.min(8),
+					};
+					let end = (ppos + plen).min(md.len());
+					md.splice(ppos..end.min(ppos + plen), e[..want].iter().copied());
+				}
+			}
+			raw.metadata = Some(md);
+		}
 		"no_players" => {
 			for i in 0..4 {
 				if raw.events[0].payload.len() < 320 {
@@ -270,6 +296,49 @@ fn corrupt_structural(raw: &mut RawFile, m: &ModelGame, d: &mut Dna, op: &'stati
 		}
 		_ => {}
 	}
+}
+
+/// (type byte position, payload position, payload length) of every value in a UBJSON map body of the
+/// subset the recorder writes; stops quietly at anything it does not understand
+fn ubjson_values(md: &[u8]) -> Vec<(usize, usize, usize)> {
+	let mut out = Vec::new();
+	let mut i = 0;
+	let mut depth = 0usize;
+	while i < md.len() {
+		match md[i] {
+			b'}' => {
+				i += 1;
+				if depth == 0 {
+					break;
+				}
+				depth -= 1;
+			}
+			b'U' => {
+				let Some(&kl) = md.get(i + 1) else { break };
+				i += 2 + kl as usize;
+				let Some(&t) = md.get(i) else { break };
+				match t {
+					b'S' => {
+						let Some(&l) = md.get(i + 2) else { break };
+						out.push((i, i + 1, 2 + l as usize));
+						i += 3 + l as usize;
+					}
+					b'l' => {
+						out.push((i, i + 1, 4));
+						i += 5;
+					}
+					b'{' => {
+						out.push((i, i + 1, 0));
+						i += 1;
+						depth += 1;
+					}
+					_ => break,
+				}
+			}
+			_ => break,
+		}
+	}
+	out
 }
 
 fn gen_corrupted(dna: &[u8], cfg: &GenCfg, other: &[u8]) -> Corrupted {
@@ -286,7 +355,7 @@ fn gen_corrupted(dna: &[u8], cfg: &GenCfg, other: &[u8]) -> Corrupted {
 		_ => 3,
 	};
 	for _ in 0..nstruct {
-		let op = OPS[md.below(17)]; // structural ones
+		let op = OPS[md.below(18)]; // structural ones
 		let op = if md.u8() == 255 { "no_players" } else { op };
 		corrupt_structural(&mut raw, &m, &mut d, op);
 		ops.push(op);
